@@ -70,6 +70,24 @@ let parse_cmd (ar : M.arch) (st : M.state) (t : string list) : M.cmd =
   | ["A"; m; n] -> M.CAlign (zs m, zs n)
   | ["E"; n] -> M.CEmbed (zs n)
   | ["EL"; id; s] -> M.CEmbedLabel (zs id, zs s)
+  | ["PP"; is_pop; instid; id] ->
+    (match M.pushpop_cmd ar (is_pop = "1") (zs instid) (zs id) with Some c -> c | None -> failwith "push/pop path: stuck")
+  | ["LS"; instid; rt; rid; bt; bid; it; iid; sop; sh; mode; off] ->
+    (match M.a64_ldst_cmd (zs instid) { M.a_rtype = zs rt; a_rid = zs rid; a_btype = zs bt; a_bid = zs bid; a_itype = zs it; a_iid = zs iid;
+                                         a_shiftop = zs sop; a_shift = zs sh; a_mode = zs mode; a_off = zs off } with
+     | Some c -> c
+     | None -> failwith "a64 load/store path: stuck or unsupported form")
+  | ["SH"; instid; rt; rid; size; imm] ->
+    (match M.shift_cmd ar st (zs instid) { M.s_rtype = zs rt; s_rid = zs rid; s_size = zs size; s_imm = zs imm } with
+     | Some c -> c
+     | None -> failwith "shift path: stuck or unsupported form")
+  | ["V2"; instid; vt; dst; dsize; bt; bid; it; iid; sh; seg; addr; size; off] ->
+    (match M.vsib2_cmd ar st (zs instid) { M.v_type = zs vt; v_dst = zs dst; v_mask = zi 0; v_dsize = zs dsize;
+                                            v_mem = { M.m_dst = zi 0; m_btype = zs bt; m_bid = zs bid; m_itype = zs it; m_iid = zs iid; m_shift = zs sh;
+                                                      m_seg = zs seg; m_addr = zs addr; m_size = zs size; m_off = zs off } } with
+     | Some c -> c
+     | None -> failwith "evex vsib path: stuck or unsupported form")
+  | ["CP"; id; size; align] -> M.CEmbedConstPool (zs id, zs size, zs align)
   | ["ELD"; id; b; s] -> M.CEmbedLabelDelta (zs id, zs b, zs s)
   | ["S"; id; f] -> M.CSection (zs id, f = "1")
   | ["NS"; a; nl] -> M.CNewSection (zs a, zs nl)
@@ -82,7 +100,7 @@ let () =
     while true do
       let line = input_line stdin in
       if String.length line > 1 && line.[0] = 'T' then
-        print_endline ("T " ^ String.concat " " (List.map sz (M.model_constants @ M.path_constants @ M.mem_path_constants)))
+        print_endline ("T " ^ String.concat " " (List.map sz (M.model_constants @ M.path_constants @ M.mem_path_constants @ M.a64_path_constants)))
       else if String.length line > 1 && line.[0] = 'P' then begin
         bind_atomic := (field (split line) "bind_atomic" = "1");
         print_endline line
